@@ -19,7 +19,7 @@ class SimCfg(ctypes.Structure):
         ("window_pct", ctypes.c_int),
         ("poison", ctypes.c_int),
         ("record_trace", ctypes.c_int),
-        ("reserved", ctypes.c_int),
+        ("team_limit", ctypes.c_int),
         ("max_steps", ctypes.c_uint64),
         ("window_fn", ctypes.c_uint64),
     ]
@@ -72,7 +72,7 @@ class Sim:
         self._keep = None
         self._syms = None
 
-    def begin(self, seed, nthreads=1, strategy="rtc_id", chunk_shuffle=0, preempt_mean=0, window_pct=100, poison=0, record=False, max_steps=0, replay=None, window_fn=0):
+    def begin(self, seed, nthreads=1, strategy="rtc_id", chunk_shuffle=0, preempt_mean=0, window_pct=100, poison=0, record=False, max_steps=0, replay=None, window_fn=0, team_limit=0):
         cfg = SimCfg(
             int(nthreads),
             STRATS.index(strategy) if isinstance(strategy, str) else int(strategy),
@@ -81,7 +81,7 @@ class Sim:
             int(window_pct),
             int(poison),
             int(bool(record)),
-            0,
+            int(team_limit),
             int(max_steps),
             int(window_fn),
         )
